@@ -50,10 +50,12 @@ func (s *Scheduler) HandleSlotVerif(ctx context.Context, slot core.Slot) {
 type SnapshotVerif struct {
 	ResolvedEpoch uint64
 	Duties        map[core.Duty][]core.PubKey // pubkeys of each stored definition set
+	Defs          map[core.Duty]core.DutyDefinitionSet
 	DutiesByEpoch map[uint64][]core.Duty
 }
 
-// SnapshotVerif returns a read-only copy of resolvedEpoch, duties (keys and pubkeys) and dutiesByEpoch.
+// SnapshotVerif returns a read-only copy of resolvedEpoch, duties (keys, pubkeys, shallow copies of the
+// definition sets) and dutiesByEpoch.
 func (s *Scheduler) SnapshotVerif() SnapshotVerif {
 	s.dutiesMutex.RLock()
 	defer s.dutiesMutex.RUnlock()
@@ -61,14 +63,20 @@ func (s *Scheduler) SnapshotVerif() SnapshotVerif {
 	resp := SnapshotVerif{
 		ResolvedEpoch: s.resolvedEpoch,
 		Duties:        make(map[core.Duty][]core.PubKey),
+		Defs:          make(map[core.Duty]core.DutyDefinitionSet),
 		DutiesByEpoch: make(map[uint64][]core.Duty),
 	}
 
 	for duty, defSet := range s.duties {
 		pks := make([]core.PubKey, 0, len(defSet))
-		for pk := range defSet {
+		cp := make(core.DutyDefinitionSet, len(defSet))
+
+		for pk, def := range defSet {
 			pks = append(pks, pk)
+			cp[pk] = def // definitions are value types (structs embedding the eth2 duty)
 		}
+
+		resp.Defs[duty] = cp
 
 		slices.Sort(pks)
 		resp.Duties[duty] = pks
